@@ -38,6 +38,7 @@ DEFAULT_PROFILE = {
   "c12_error_formula": 0, "c12_summary_any": 0, "c12_retype_groupby": 0, "c12_rename_groupby": 0,
   "unhashable_key": 1.5,
   "agg_unsorted": 1,
+  "lookup_chain": 1,
   "remove_readd": 2,
   "add_empty_column": 2,
   "stale_undo": 1,
@@ -569,6 +570,59 @@ class Gen(object):
                                                          ("sum(r.%s for r in $%s)" % (f, rl))}],
              ["AddColumn", t["tableId"], s2, {"type": "Any", "isFormula": True,
                                               "formula": "sum(%s.lookupRecords(order_by='-%s').%s)" % (t["tableId"], x, f)}]],)
+
+  CHAIN_POOL = [10, 20, 30, 40, 50]
+
+  def g_lookup_chain(self, w):
+    """A cross-table CHAIN of lookups in which a formula column is itself a lookup key:
+         A.x = B.lookupOne(k=$cid).y      B.k = A.lookupOne(cid=$z).w
+    with all keys from one small pool, so that one cell edit changes, through the first index, the key under
+    which a row sits in the second index while the referring column is already being recalculated.
+    Once a chain exists, this kind makes single-cell edits of its key cells."""
+    import re
+    rng = self.rng
+    pool = self.CHAIN_POOL
+    chains = []
+    for t in w.user_tables():
+      for c in w.formula_cols(t):
+        m = re.match(r"^(\w+)\.lookupOne\(k_(\w+)=\$(cid_\w+)\)\.y_\w+$", c["formula"] or "")
+        if m and m.group(1) in w.tables:
+          chains.append((t, w.tables[m.group(1)], m.group(3)))
+    if chains and rng.random() < 0.85:
+      a, b, cid = rng.choice(chains)
+      tag = cid[4:]
+      r = rng.random()
+      if r < 0.45 and a["rows"]:
+        return ["UpdateRecord", a["tableId"], rng.choice(a["rows"]), {cid: rng.choice(pool)}]
+      if r < 0.8 and b["rows"]:
+        return ["UpdateRecord", b["tableId"], rng.choice(b["rows"]), {"z_" + tag: rng.choice(pool)}]
+      if r < 0.9 and a["rows"]:
+        return ["UpdateRecord", a["tableId"], rng.choice(a["rows"]), {"w_" + tag: rng.choice(pool)}]
+      if b["rows"]:
+        return ["UpdateRecord", b["tableId"], rng.choice(b["rows"]), {"y_" + tag: rng.choice(TEXTS)}]
+      return None
+    if not self.formulas:
+      return None
+    ts = [t for t in w.user_tables() if t["rows"]]
+    if len(ts) < 1:
+      return None
+    a = rng.choice(ts)
+    b = rng.choice(ts)
+    self.n_names += 1
+    tag = "%d" % self.n_names
+    cid, wc, z, y, k, x = ("cid_" + tag, "w_" + tag, "z_" + tag, "y_" + tag, "k_" + tag, "x_" + tag)
+    return ([["AddColumn", a["tableId"], cid, {"type": "Int", "isFormula": False}],
+             ["AddColumn", a["tableId"], wc, {"type": "Int", "isFormula": False}],
+             ["BulkUpdateRecord", a["tableId"], list(a["rows"]),
+              {cid: [rng.choice(pool) for _ in a["rows"]], wc: [rng.choice(pool) for _ in a["rows"]]}],
+             ["AddColumn", b["tableId"], z, {"type": "Int", "isFormula": False}],
+             ["AddColumn", b["tableId"], y, {"type": "Text", "isFormula": False}],
+             ["BulkUpdateRecord", b["tableId"], list(b["rows"]),
+              {z: [rng.choice(pool + [99]) for _ in b["rows"]], y: ["b%d" % r for r in b["rows"]]}],
+             ["AddColumn", b["tableId"], k, {"type": "Any", "isFormula": True,
+                                              "formula": "%s.lookupOne(%s=$%s).%s" % (a["tableId"], cid, z, wc)}],
+             ["AddColumn", a["tableId"], x, {"type": "Any", "isFormula": True,
+                                              "formula": "%s.lookupOne(%s=$%s).%s" % (b["tableId"], k, cid, y)}]],)
 
   def g_modify_formula(self, w):
     if not self.formulas:
